@@ -4739,7 +4739,7 @@ class NotImplies1Macro(Macro):
         if goal != prop.arg.arg1:
             raise VeriTException("not_implies1", "unexpected argument")
         
-        return Thm(goal)
+        return Thm(goal, prevs[0].hyps)
 
     def get_proof_term(self, args, prevs):
         goal = args[0]
@@ -4770,7 +4770,7 @@ class NotImplies2Macro(Macro):
         if goal != Not(prop.arg.arg):
             raise VeriTException("not_implies2", "unexpected argument")
         
-        return Thm(goal)
+        return Thm(goal, prevs[0].hyps)
     def get_proof_term(self, args, prevs):
         goal = args[0]
         prop = prevs[0].prop
